@@ -867,15 +867,13 @@ def run(ctx):
     S = ctx.soft
     r_prec, prec = rule_prec(ctx)
     snap = None
-    try:
-        assoc = rule_assoc(ctx, prec)
-    except AnalysisError:
+    assoc = S(rule_assoc, ctx, prec)
+    if getattr(assoc, 'undecided', None):
         # the pop loop was not recognised: if that is because it compares a
         # stale copy of the rank, say so instead of "cannot decide"
         snap = rule_predsnap(ctx)
-        if not snap.findings:
-            raise
-        assoc = None
+        if snap.findings:
+            assoc = None
     snap = snap or rule_predsnap(ctx)
     rules = [r_prec, S(rule_arity, ctx)] + ([assoc] if assoc is not None else []) \
         + [S(rule_unary, ctx), S(rule_names, ctx, prec), S(rule_empty, ctx),
